@@ -3,14 +3,19 @@
 
 mod astx;
 mod c02;
+mod c03;
+mod c04;
 mod earley;
 mod gen;
 mod libx;
 mod model;
+mod mutate;
 mod prng;
 mod ranges;
 mod reflex;
 mod runner;
+mod syncases;
+mod synx;
 
 use runner::{Ctx, Tier};
 use std::time::Instant;
@@ -75,6 +80,8 @@ fn main() {
     let ctx = Ctx { id: id.clone(), tier, seed, replay, start: Instant::now(), threads, verbose };
     let code = match id.as_str() {
         "C02" => c02::run(&ctx),
+        "C03" => c03::run(&ctx),
+        "C04" => c04::run(&ctx),
         _ => {
             eprintln!("unknown property id {id}");
             2
